@@ -190,7 +190,8 @@ def classify(w):
 
 
 def replay(eng, ob, model, seed):
-    w, tried = search(seed)
+    thorough = os.environ.get("VERIF_TIER") == "thorough"
+    w, tried = search(seed, 600000 if thorough else 30000)
     if w is None:
         return {"failed_on_real_code": False, "candidates_tried": tried,
                 "bound": "<=3 targets in 3 working directories, lists <=2 over 3 files x 9 spellings, structured + "
